@@ -350,6 +350,33 @@ pub fn run_stress(args: &Args, mut out: Out) {
                 std::thread::sleep(Duration::from_micros(r.gen_range(0..3000)));
             }
         }
+        // ---- C12 at the socket level: a connection that has ended no longer holds a socket.  The hook log says which
+        // connections have ended; a client that still has its end open keeps writing single bytes: once the server's end
+        // is closed the second or third write fails (reset), whereas a server that keeps the socket in some task of its
+        // own goes on swallowing them ----
+        {
+            let ended: HashSet<u64> = servlin::verif::snapshot().iter().filter(|r| r.kind == "ConnEnd").map(|r| r.a).collect();
+            let mut probed = 0;
+            for cl in clients.iter_mut() {
+                if probed >= 3 || !ended.contains(&u64::from(cl.port)) {
+                    continue;
+                }
+                let Some(sock) = cl.sock.as_mut() else { continue };
+                probed += 1;
+                let deadline = Instant::now() + Duration::from_secs(3);
+                let mut closed = false;
+                while Instant::now() < deadline {
+                    if sock.write_all(b"x").is_err() {
+                        closed = true;
+                        break;
+                    }
+                    std::thread::sleep(Duration::from_millis(15));
+                }
+                emit(if closed { "EndedSocketClosed" } else { "EndedSocketStillOpen" }, 0, u64::from(cl.port));
+                let _ = sock.shutdown(std::net::Shutdown::Both);
+                cl.sock = None;
+            }
+        }
         let do_refill = held_fds.is_none() && r.gen_bool(0.5);
         let t_phase = Instant::now();
         if do_refill {
